@@ -85,6 +85,7 @@ func init() {
 			func(c *Ctx) { c.ruleAssert("R-ASSERT", c.scopeData()); c.R.Floor("R-ASSERT", 14) },
 			func(c *Ctx) { c.ruleNilGuard("R-NILGUARD", c.scopeData()); c.R.Floor("R-NILGUARD", 30) },
 			func(c *Ctx) { c.ruleMapNil("R-MAPNIL", c.scopePkg("schema")); c.R.Floor("R-MAPNIL", 10) },
+			func(c *Ctx) { c.ruleExplicit("R-EXPLICIT", c.M, c.entryData(), c.dataTaint(c.entryData()), true); c.R.Floor("R-EXPLICIT", 8) },
 		},
 	})
 	register(&PropSpec{
@@ -161,6 +162,57 @@ func init() {
 			func(c *Ctx) { c.ruleStepData("R-STEPDATA") },
 			func(c *Ctx) { c.ruleAtomic("R-ATOMIC"); c.R.Floor("R-ATOMIC", 4) },
 			func(c *Ctx) { c.ruleMapNil("R-MAPNIL", c.scopePkg("schema")); c.R.Floor("R-MAPNIL", 10) },
+		},
+	})
+	register(&PropSpec{
+		ID: "C09",
+		Explanation: "Decided: R-TABLE - the hand-written meta-schema tables are evaluated from the package initialiser and compared with the Go structs they describe: " +
+			"every json-tagged field (inline-embedded structs flattened) has a row and every row a field (T1); the keys of the value-type one-of are exactly the TypeID " +
+			"constants and each dispatches to a struct whose TypeID() reports that key, the map-key one-of likewise (T3); the rows for the value bounds of the integer and " +
+			"float kinds are themselves unbounded, so every constructible schema can describe itself (T5); R-FORWARD - the loaders reach ApplySelf for every scope-typed " +
+			"descendant of what they return, and all containers forward linking to all children. NOT decided: the describe/rebuild/describe fixed point as a value-level " +
+			"statement, CBOR/YAML passes, behavioural equality of original and rebuilt schema, string constraints (patterns / lengths) that the tables put on identifiers.",
+		Assumptions: []string{"the tables are built from literals and constructor calls (anything else fails the check as undecided)"},
+		Rules: []func(*Ctx){
+			func(c *Ctx) { c.ruleTable("R-TABLE") },
+			func(c *Ctx) { c.ruleForward("R-FORWARD") },
+		},
+	})
+	register(&PropSpec{
+		ID: "C10",
+		Explanation: "Decided: R-EXPLICIT without the well-formedness assumptions - every explicit panic reachable from UnserializeSchema / UnserializeScope / ReadSchema or from the " +
+			"data API is classified; a guard that depends only on schema state which a received description can produce is a violation (14 such sites are genuine, demonstrated " +
+			"defects recorded as known findings, each keyed separately so a new panic path is still reported); R-FORWARD - the loaders link every scope they return; " +
+			"R-ASSERT - the loaders' own type assertions are justified by the meta-root argument. NOT decided: semantic usability of an accepted description; panics from " +
+			"reflection inside the struct mapper (covered by its recover scope).",
+		Assumptions: []string{"table entries produced by the struct mapper are non-nil (A2 holds for wire-built schemas too)"},
+		Rules: []func(*Ctx){
+			func(c *Ctx) {
+				roots := append(c.entryLoad(), c.entryData()...)
+				c.ruleExplicit("R-EXPLICIT", c.M, roots, c.dataTaint(c.entryData()), false)
+				c.R.Floor("R-EXPLICIT", 10)
+			},
+			func(c *Ctx) { c.ruleForward("R-FORWARD") },
+			func(c *Ctx) {
+				fns := map[*ssa.Function]bool{}
+				for _, f := range c.entryLoad() {
+					fns[f] = true
+				}
+				c.ruleAssert("R-ASSERT", fns)
+				c.R.Floor("R-ASSERT", 2)
+			},
+		},
+	})
+	register(&PropSpec{
+		ID: "C14",
+		Explanation: "Decided: R-FORWARD - ApplyNamespace of every container forwards to every child (json-tagged Serializable field, or map/slice of such; inside a loop for " +
+			"collections) with the namespace string and the object table unchanged; the scope hands down its own table exactly for the self namespace and the external " +
+			"table otherwise; the reference links only when the namespace matches, to objects[its own ID]; ValidateReferences visits every child, returns its verdict, and " +
+			"succeeds for a reference iff it is linked; the loaders link all scopes. NOT decided: the metamorphic 'inline the reference' equivalence over inputs; " +
+			"termination on self-referential object graphs (see DESIGN R-TERM: not implemented).",
+		Assumptions: []string{wellFormed},
+		Rules: []func(*Ctx){
+			func(c *Ctx) { c.ruleForward("R-FORWARD") },
 		},
 	})
 	register(&PropSpec{
